@@ -200,6 +200,61 @@ func (w *World) resolveRoles() (notes []string) {
 			w.astDecl[name] = d
 		}
 	}
+	// a method of the inventory turned into a plain function of the same name that takes the receiver as its first
+	// parameter (or the reverse): still the known routine. The SSA parameters are the same list either way.
+	for name, sig := range funcInventory {
+		if w.byName[name] != nil || sig == "" || strings.Contains(name, "$") {
+			continue
+		}
+		parts := strings.SplitN(sig, "|", 3)
+		if len(parts) != 3 {
+			continue
+		}
+		short := name
+		if i := strings.LastIndex(name, ")."); i >= 0 {
+			short = name[i+2:]
+		}
+		var want string
+		if parts[0] != "" { // method → function
+			ps := parts[0]
+			if parts[1] != "" {
+				ps += "," + parts[1]
+			}
+			want = "|" + ps + "|" + parts[2]
+		} else { // function → method on its first parameter's type
+			ps := strings.SplitN(parts[1], ",", 2)
+			if len(ps) == 0 || ps[0] == "" {
+				continue
+			}
+			rest := ""
+			if len(ps) == 2 {
+				rest = ps[1]
+			}
+			want = ps[0] + "|" + rest + "|" + parts[2]
+		}
+		var cands []*ssa.Function
+		for _, fn := range w.Funcs {
+			if fn.Parent() != nil || fnAlias[fn] != "" || sigKey(fn) != want {
+				continue
+			}
+			if _, known := funcInventory[unaliasTypes(fn.RelString(w.Types))]; known {
+				continue
+			}
+			if obj := fn.Object(); obj == nil || obj.Exported() || obj.Name() != short {
+				continue
+			}
+			cands = append(cands, fn)
+		}
+		if len(cands) == 1 {
+			fn := cands[0]
+			fnAlias[fn] = name
+			w.byName[name] = fn
+			notes = append(notes, name+" is now "+unaliasTypes(fn.RelString(w.Types))+" (same name and parameters, receiver moved)")
+			if d := w.astDecl[unaliasTypes(fn.RelString(w.Types))]; d != nil {
+				w.astDecl[name] = d
+			}
+		}
+	}
 	return notes
 }
 
